@@ -15,7 +15,7 @@ import Mathlib.Tactic.LinearCombination
     r² = 2 (resp. 6), checked entry by entry. -/
 noncomputable section
 namespace DHom
-open Model Model.Ops OpsL Spec Horner DDef DDef2
+open Model Model.Ops Spec Horner DDef DDef2
 open scoped ComplexConjugate
 
 /-! ### quaternions (the library's product convention) -/
@@ -288,8 +288,7 @@ theorem wAt_vec (K : ConvConsts ℝ) (v : Vec3 ℝ) :
     wAt (vectorAsEll1R K v) (-1) = ((v.x : ℂ) + Complex.I * (v.y : ℂ)) * (K.sqrt2pi3 : ℂ) ∧
     wAt (vectorAsEll1R K v) 0 = (v.z : ℂ) * (K.sqrt4pi3 : ℂ) ∧
     wAt (vectorAsEll1R K v) 1 = (-(v.x : ℂ) + Complex.I * (v.y : ℂ)) * (K.sqrt2pi3 : ℂ) := by
-  refine ⟨?_, ?_, ?_⟩ <;>
-    simp [wAt, vectorAsEll1R, toC_mulr, toC_add, toC_mul, toC_ofRe, toC_I]
+  refine ⟨?_, ?_, ?_⟩ <;> (simp [wAt, vectorAsEll1R]; apply Complex.ext <;> simp [toC])
 
 /-- Rotating the ℓ = 1 weights of the real vector v with the table of R̄ (row index summed, as `f @ 𝔇` does) gives the
     weights of R v R̄; needs only `sqrt4pi3 = √2 · sqrt2pi3`; no unit-norm condition (both sides scale by |R|²). -/
@@ -307,13 +306,27 @@ theorem rot_T1 (K : ConvConsts ℝ) (hK : K.sqrt4pi3 = Real.sqrt 2 * K.sqrt2pi3)
   have hr := sqrt2C_sq
   have hI := Complex.I_mul_I
   have h2 : m = -1 ∨ m = 0 ∨ m = 1 := by omega
-  rw [e1, e2, e3, QA_eq, QB_eq, QA_conj_eq, QB_conj_eq]
+  rw [e1, e2, e3, QA_conj_eq, QB_conj_eq, QA_eq, QB_eq]
   rcases h2 with rfl | rfl | rfl
   · rw [f1]; simp only [T1, rotVec, qmul, qconj, hK]; push_cast; simp; grind
   · rw [f2]; simp only [T1, rotVec, qmul, qconj, hK]; push_cast; simp; grind
   · rw [f3]; simp only [T1, rotVec, qmul, qconj, hK]; push_cast; simp; grind
 
-theorem Kreal_ratio : Kreal.sqrt4pi3 = Real.sqrt 2 * Kreal.sqrt2pi3 := by
+/-- R·(0, v)·R̄ has no scalar part -/
+theorem rotVec_scalar (R : Quat ℝ) (v : Vec3 ℝ) : (qmul (qmul R ⟨0, v.x, v.y, v.z⟩) (qconj R)).w = 0 := by
+  simp only [qmul, qconj]; ring
+
+/-- the vector part of R·(0, v)·R̄ is the usual rotation matrix of the quaternion R applied to v -/
+theorem rotVec_matrix (R : Quat ℝ) (v : Vec3 ℝ) :
+    (rotVec R v).x = (R.w ^ 2 + R.x ^ 2 - R.y ^ 2 - R.z ^ 2) * v.x + 2 * (R.x * R.y - R.w * R.z) * v.y
+        + 2 * (R.x * R.z + R.w * R.y) * v.z ∧
+    (rotVec R v).y = 2 * (R.x * R.y + R.w * R.z) * v.x + (R.w ^ 2 - R.x ^ 2 + R.y ^ 2 - R.z ^ 2) * v.y
+        + 2 * (R.y * R.z - R.w * R.x) * v.z ∧
+    (rotVec R v).z = 2 * (R.x * R.z - R.w * R.y) * v.x + 2 * (R.y * R.z + R.w * R.x) * v.y
+        + (R.w ^ 2 - R.x ^ 2 - R.y ^ 2 + R.z ^ 2) * v.z := by
+  refine ⟨?_, ?_, ?_⟩ <;> simp only [rotVec, qmul, qconj] <;> ring
+
+theorem Kreal_ratio : OpsL.Kreal.sqrt4pi3 = Real.sqrt 2 * OpsL.Kreal.sqrt2pi3 := by
   show Real.sqrt (4 * Real.pi / 3) = Real.sqrt 2 * Real.sqrt (2 * Real.pi / 3)
   rw [← Real.sqrt_mul (by norm_num)]
   congr 1; ring
